@@ -86,6 +86,9 @@ SOLVE_FAMILY = {
                         "distinct Unsolvable cases whose conflict graph has at least 3 edges"),
         "cancelled": (lambda c, i, m: any(l.startswith("result cancelled") for l in i),
                       "distinct cases in which the run was actually cancelled (the plan fired at a poll the run reached)"),
+        "async3": (lambda c, i, m: sum(l.startswith("ev complete") for l in i) >= 3, "distinct cases in which at least 3 asynchronous provider requests were completed by the executor"),
+        "multi": (lambda c, i, m: sum(l.startswith("result ") for l in i) >= 2 and any(l.startswith(("result cancelled", "result unsat")) for l in i),
+                  "distinct histories with at least two solves, one of which ended Cancelled or Unsolvable"),
         "any": (lambda c, i, m: True, "all distinct cases (every case exercises panic/termination checks)"),
     },
     "compare": split_oracles,
@@ -100,6 +103,9 @@ FAMILIES["soft"] = dict(SOLVE_FAMILY, rule="as `solve` plus 1-4 soft requirement
 FAMILIES["lazy"] = dict(SOLVE_FAMILY, rule="as `solve` (general and tight shapes) but with no availability hints anywhere, locks on 1/4 of the packages and constrains on 1/2 of the solvables - the setting of C09")
 FAMILIES["cancel"] = dict(SOLVE_FAMILY, rule="universes of all shapes (general/tight/hinted/soft/lazy); the uncancelled run is measured first and a cancellation plan drawn from it: the signal is up at poll k (k uniform over all polls of the run, incl. never), "
     "or goes up while provider request number j is being served (j uniform over all requests); 1/3 transient (up only at that poll / until the next request starts)")
+FAMILIES["reuse"] = dict(SOLVE_FAMILY, rule="2-4 solves on ONE solver over a generated universe (same problem again, or new requirements / constraints / soft lists), sync runtime; half of the cases with a transient cancellation placed at a random poll or provider request of the uncancelled history, so later solves run after a Cancelled (and after Unsolvable) outcome")
+FAMILIES["reuse-async"] = dict(SOLVE_FAMILY, rule="as `reuse` with an asynchronous provider: every get_candidates / get_dependencies (1/3: also filter/sort) is a future completed by a manual single-threaded executor according to a schedule (FIFO, LIFO, seeded random); cancellation can strike while requests are in flight")
+FAMILIES["async"] = dict(SOLVE_FAMILY, rule="one solve with an asynchronous provider under a manual single-threaded executor that completes one outstanding request at a time (FIFO / LIFO / seeded random schedules; 1/3 with filter_candidates and sort_candidates also asynchronous); the pending set at every quiescent point and every completion are recorded")
 FAMILIES["conflictfree"] = dict(SOLVE_FAMILY, rule="as `solve` without locks/exclusions/Unknown/missing packages, biased to version sets matching everything, with favored candidates; "
     "non-trivial additionally requires the preferred candidates to be mutually compatible (C07 hypothesis, decided by the driver)")
 
@@ -194,6 +200,25 @@ PROPS = {
         "level": "other", "module": "Resolvo.Props.C09", "theorems": ["Resolvo.C09.at_most_once_cache"],
         "families": [("lazy", {"quick": 4000, "thorough": 80000}), ("conflictfree", CF_Q), ("soft", SOFT_Q), ("cache", {"quick": 1500, "thorough": 20000})],
         "explanation": "PROVED: cache-level at-most-once. CHECKED PER RUN: causal order and at-most-once of the provider call log of every sync run without hints; exact call-log correspondence of SolverCache with its model.",
+    },
+    "C10": {
+        "nt_rule": "async3",
+        "level": "other", "module": "Resolvo.Props.C10", "theorems": ["Resolvo.C10.verdict_reference"],
+        "families": [("async", {"quick": 4000, "thorough": 100000}), ("reuse-async", {"quick": 1500, "thorough": 30000})],
+        "explanation": "CHECKED PER RUN (real solver, manual single-threaded executor, FIFO/LIFO/random completion orders, optionally async filter/sort): validB on every answer, verdict = verified decideSolvable (= sync verdict), no obtained answer requested twice, no deadlock (solver pending with nothing outstanding), no panic. PROVED: exactness of the verdict reference. NOT PROVED: a model of the FuturesUnordered/Event protocol (planned Sched.lean); waker delivery and cooperative yielding of real executors are outside the model.",
+        "assumptions": ["single-threaded executor that wakes a task only when the future it is parked on completes"],
+    },
+    "C11": {
+        "nt_rule": "async3",
+        "level": "other", "module": "Resolvo.Props.C10", "theorems": [],
+        "families": [("async", {"quick": 4000, "thorough": 100000}), ("reuse-async", {"quick": 1500, "thorough": 30000})],
+        "explanation": "CHECKED PER RUN: at every quiescent point of every schedule (the solver's future returned Pending without a pending self-wake) the set of outstanding provider requests is recorded; c11Check requires every get_candidates request implied by dependency information already received (the root's, and that of every solvable whose get_dependencies has completed) to be outstanding or answered - in particular a root with k requirements on distinct packages has k candidate requests in flight at the first quiescent point. No theorem yet (no scheduler model); claimed as exploration with an executable oracle.",
+    },
+    "C13": {
+        "nt_rule": "multi",
+        "level": "proof", "module": "Resolvo.Props.C13", "theorems": ["Resolvo.C13.each_valid", "Resolvo.C13.each_verdict"],
+        "families": [("reuse", {"quick": 2500, "thorough": 60000}), ("reuse-async", {"quick": 2000, "thorough": 40000})],
+        "explanation": "PROVED: in every history of solves on one solver of the checked model (any problems, any outcomes incl. Cancelled and Unsolvable, any cache contents) every returned solution is valid and supported and every Unsolvable verdict is sound. TIE: exact correspondence of whole sync histories (results, solution orders, call logs with polls, solver histories) between MDet and the real solver. CHECKED PER RUN: no refetch of obtained metadata across solves, termination/no deadlock after cancellation with requests in flight (async). NOT PROVED: checkFailed never occurs; termination.",
     },
     "C12": {
         "nt_rule": "cancelled",
